@@ -87,6 +87,108 @@ def _dict_needs_scan(d, k):
     return False
 
 
+class SymDict(dict):
+    """What `{...}`, `dict(...)` and dict comprehensions evaluate to inside instrumented code: a dict
+    whose key-based operations fall back to a linear scan with symbolic equality whenever a
+    symbolic key is involved - also when a bound method (`d.__contains__`, `d.get`) is handed to
+    native code such as itertools or map."""
+    __slots__ = ()
+
+    def __contains__(self, k):
+        if _dict_needs_scan(self, k):
+            return _scan(self, k) is not _MISSING
+        try:
+            return dict.__contains__(self, k)
+        except Unsupported:
+            return _scan(self, k) is not _MISSING
+
+    def __getitem__(self, k):
+        if _dict_needs_scan(self, k):
+            kk = _scan(self, k)
+            if kk is _MISSING:
+                raise KeyError(k)
+            with hash_ok():
+                return dict.__getitem__(self, kk)
+        return dict.__getitem__(self, k)
+
+    def __setitem__(self, k, v):
+        if _dict_needs_scan(self, k):
+            kk = _scan(self, k)
+            with hash_ok():
+                dict.__setitem__(self, k if kk is _MISSING else kk, v)
+            return
+        dict.__setitem__(self, k, v)
+
+    def __delitem__(self, k):
+        if _dict_needs_scan(self, k):
+            kk = _scan(self, k)
+            if kk is _MISSING:
+                raise KeyError(k)
+            with hash_ok():
+                dict.__delitem__(self, kk)
+            return
+        dict.__delitem__(self, k)
+
+    def get(self, k, default=None):
+        if k in self:
+            return self[k]
+        return default
+
+    def pop(self, k, *default):
+        if k in self:
+            v = self[k]
+            del self[k]
+            return v
+        if default:
+            return default[0]
+        raise KeyError(k)
+
+    def setdefault(self, k, default=None):
+        if k in self:
+            return self[k]
+        self[k] = default
+        return default
+
+    def update(self, *a, **kw):
+        if a:
+            src = a[0]
+            if hasattr(src, 'keys'):
+                with hash_ok():
+                    ks = list(src.keys())
+                for k in ks:
+                    self[k] = src[k]
+            else:
+                for k, v in src:
+                    self[k] = v
+        for k, v in kw.items():
+            self[k] = v
+
+    def copy(self):
+        n = SymDict()
+        with hash_ok():
+            for k, v in dict.items(self):
+                dict.__setitem__(n, k, v)
+        return n
+
+    def __reduce__(self):
+        return (dict, (dict(self),))
+
+
+def _symdict_from(d):
+    n = SymDict()
+    with hash_ok():
+        for k, v in d.items():
+            n[k] = v
+    return n
+
+
+def _vf_dictcomp(pairs):
+    n = SymDict()
+    for k, v in pairs:
+        n[k] = v
+    return n
+
+
 # ---------------------------------------------------------------------- helpers
 def _vf_getitem(o, k):
     if isinstance(o, dict) and _dict_needs_scan(o, k):
@@ -180,9 +282,9 @@ def _vf_join(*parts):
 
 
 def _vf_dict(keys, values):
-    d = {}
+    d = SymDict()
     for k, v in zip(keys, values):
-        _vf_setitem(d, k, v)
+        d[k] = v
     return d
 
 
@@ -300,6 +402,16 @@ def _builtin_func(f, a, k):
         raise ModuleNotFoundError('No module named <symbolic>')
     if f in _NATIVE_OK:
         return f(*a, **k)
+    if getattr(f, '__module__', None) == '_operator':
+        # operator.lt(a, b) & co dispatch to the proxies' own dunder methods
+        nm = f.__name__
+        if nm == 'contains':
+            return _vf_contains(a[1], a[0], False)
+        if nm == 'getitem':
+            return _vf_getitem(a[0], a[1])
+        if nm in ('lt', 'le', 'gt', 'ge', 'eq', 'ne', 'add', 'sub', 'mul', 'neg', 'pos', 'not_', 'truth',
+                  'concat', 'is_', 'is_not'):
+            return f(*a, **k)
     raise Unsupported('builtin %s on symbolic argument' % getattr(f, '__name__', f))
 
 
@@ -367,7 +479,7 @@ def _vf_call(f, *a, **k):
                 return _builtin_func(f, a, k)
             if f is dict:
                 with hash_ok():
-                    return f(*a, **k)
+                    return _symdict_from(f(*a, **k))
         return f(*a, **k)
     return f(*a, **k)
 
@@ -424,7 +536,7 @@ def _getenv(name, default=None):
 
 
 HELPERS = (_vf_call, _vf_getitem, _vf_setitem, _vf_delitem, _vf_contains, _vf_mod, _vf_fmt,
-           _vf_join, _vf_dict)
+           _vf_join, _vf_dict, _vf_dictcomp)
 
 
 # ---------------------------------------------------------------------- AST rewrite
@@ -441,7 +553,22 @@ class Rewriter(ast.NodeTransformer):
         self.modname = modname
         self.scope = []
 
+    def _in_function(self):
+        return bool(self._fdepth)
+
+    _fdepth = 0
+
     def _enter(self, node):
+        isf = isinstance(node, (ast.FunctionDef, ast.AsyncFunctionDef))
+        if isf:
+            self._fdepth += 1
+        try:
+            return self._enter2(node)
+        finally:
+            if isf:
+                self._fdepth -= 1
+
+    def _enter2(self, node):
         self.scope.append(node.name)
         if isinstance(node, (ast.FunctionDef, ast.AsyncFunctionDef)):
             FUNCS_SEEN.add(self.modname + '.' + '.'.join(self.scope))
@@ -544,12 +671,18 @@ class Rewriter(ast.NodeTransformer):
                                       keywords=[]))
         return ast.copy_location(ast.Call(func=_name('_vf_join'), args=parts, keywords=[]), node)
 
+    def visit_DictComp(self, node):
+        self.generic_visit(node)
+        gen = ast.GeneratorExp(elt=ast.Tuple(elts=[node.key, node.value], ctx=ast.Load()),
+                               generators=node.generators)
+        return ast.copy_location(ast.Call(func=_name('_vf_dictcomp'), args=[gen], keywords=[]), node)
+
     def visit_Dict(self, node):
         self.generic_visit(node)
-        if not node.keys or any(k is None for k in node.keys):
-            return node
-        if all(isinstance(k, ast.Constant) for k in node.keys):
-            return node
+        if any(k is None for k in node.keys):
+            return node            # {**other}: left native
+        if not self._in_function():
+            return node            # class bodies / module level tables stay plain dicts
         return ast.copy_location(
             ast.Call(func=_name('_vf_dict'),
                      args=[ast.List(elts=list(node.keys), ctx=ast.Load()),
